@@ -176,37 +176,55 @@ Proof.
   destruct (has_fold l), (has_slash l); rewrite ?slash_nkey, ?fold_nkey; reflexivity.
 Qed.
 
-Lemma key_ops_sem l s :
-  key_ops_ok l = true -> apply_ops l s = nkey (if uses_norm l then normpath s else s).
+Lemma apply_ops_squash l s : apply_ops (squash l) s = apply_ops l s.
 Proof.
-  destruct l as [|o r]; [discriminate|].
-  destruct o; cbn [key_ops_ok uses_norm]; intros H;
-    try (apply apply_sf_both; exact H).
-  change (apply_ops (ONorm :: r) s) with (apply_ops r (normpath s)). apply apply_sf_both. exact H.
+  revert s. induction l as [|o r IH]; intros s; [reflexivity|]. cbn [squash].
+  destruct r as [|o' r']; [reflexivity|].
+  destruct (is_sf o && sop_eqb o o') eqn:E.
+  - rewrite IH. apply andb_true_iff in E as [E1 E2].
+    change (apply_ops (o :: o' :: r') s) with (apply_ops r' (apply_op o' (apply_op o s))).
+    change (apply_ops (o' :: r') s) with (apply_ops r' (apply_op o' s)).
+    destruct o, o'; try discriminate; cbn [apply_op]; rewrite ?slash_idem, ?fold_idem; reflexivity.
+  - change (apply_ops (o :: squash (o' :: r')) s) with (apply_ops (squash (o' :: r')) (apply_op o s)).
+    rewrite IH. reflexivity.
 Qed.
 
-Lemma key_ops_stable l s : key_ops_ok l = true -> normpath s = s -> apply_ops l s = nkey s.
-Proof. intros H Hn. rewrite (key_ops_sem l s H). destruct (uses_norm l); [rewrite Hn|]; reflexivity. Qed.
+Lemma apply_ops_norm l s : apply_ops l s = apply_ops (after_norm l) (prenorm (norm_kind l) s).
+Proof.
+  rewrite <- (apply_ops_squash l s). unfold after_norm, norm_kind.
+  destruct (squash l) as [|[] [|[] r]]; reflexivity.
+Qed.
+
+Lemma key_ops_sem l s : key_ops_ok l = true -> apply_ops l s = nkey (prenorm (norm_kind l) s).
+Proof. intros H. rewrite apply_ops_norm. apply apply_sf_both. exact H. Qed.
+
+Lemma key_ops_stable l s :
+  key_ops_ok l = true -> normpath s = s -> normpath (slash s) = slash s -> apply_ops l s = nkey s.
+Proof.
+  intros H Hn Hn'. rewrite (key_ops_sem l s H).
+  destruct (norm_kind l); cbn [prenorm]; rewrite ?Hn, ?Hn', ?nkey_slash; reflexivity.
+Qed.
+
+Lemma prenorm_clean k s : clean_name s = true -> prenorm k s = s.
+Proof.
+  intros Hc. destruct k; cbn [prenorm]; rewrite ?(clean_name_slash s Hc), ?(clean_name_normpath s Hc); reflexivity.
+Qed.
 
 Lemma store_ops_clean l s : store_ops_ok l = true -> clean_name s = true -> apply_ops l s = nkey s.
 Proof.
-  intros H Hc.
-  assert (G : forall r x, forallb is_sf r && has_fold r = true -> slash x = x -> apply_ops r x = nkey x).
-  { intros r x Hr Hx. apply andb_true_iff in Hr as [Hr Hf]. rewrite (apply_sf r Hr). unfold sem_sf, nkey.
-    rewrite Hf. destruct (has_slash r); rewrite ?Hx; reflexivity. }
-  destruct l as [|o r]; [discriminate|].
-  destruct o; cbn [store_ops_ok] in H; try (apply G; [exact H|apply clean_name_slash; exact Hc]).
-  change (apply_ops (ONorm :: r) s) with (apply_ops r (normpath s)).
-  rewrite (clean_name_normpath s Hc). apply G; [exact H|apply clean_name_slash; exact Hc].
+  unfold store_ops_ok. intros H Hc. rewrite apply_ops_norm, (prenorm_clean _ s Hc).
+  apply andb_true_iff in H as [Hr Hf]. rewrite (apply_sf _ Hr). unfold sem_sf, nkey.
+  rewrite Hf. destruct (has_slash _); rewrite ?(clean_name_slash s Hc); reflexivity.
 Qed.
 
 Lemma key_ops_store l : key_ops_ok l = true -> store_ops_ok l = true.
 Proof.
-  assert (G : forall r, sf_both r = true -> forallb is_sf r && has_fold r = true).
-  { unfold sf_both. intros r H. apply andb_true_iff in H as [H Hf]. apply andb_true_iff in H as [H _].
-    rewrite H, Hf. reflexivity. }
-  destruct l as [|o r]; [discriminate|]. destruct o; cbn [key_ops_ok store_ops_ok]; apply G.
+  unfold key_ops_ok, store_ops_ok, sf_both. intros H. apply andb_true_iff in H as [H Hf].
+  apply andb_true_iff in H as [H _]. rewrite H, Hf. reflexivity.
 Qed.
+
+Lemma key_ops_clean l s : key_ops_ok l = true -> clean_name s = true -> apply_ops l s = nkey s.
+Proof. intros H. apply store_ops_clean, key_ops_store, H. Qed.
 
 (** * dictionaries *)
 Section DictFacts.
@@ -304,42 +322,92 @@ Qed.
 Definition entries (b : backend) (fs : list file) : list file := map snd (the_dict b fs).
 
 Lemma dict_lookup_spec ops_s ops_q fs q :
-  store_ops_ok ops_s = true -> key_ops_ok ops_q = true -> clean_fs fs = true -> normpath q = q ->
-  dget (apply_ops ops_q q) (mk_dict (apply_ops ops_s) fs) = spec_lookup fs q.
+  store_ops_ok ops_s = true -> key_ops_ok ops_q = true -> clean_fs fs = true ->
+  dget (apply_ops ops_q q) (mk_dict (apply_ops ops_s) fs) = spec_lookup fs (prenorm (norm_kind ops_q) q).
 Proof.
-  intros Hs Hq Hc Hn. rewrite dget_mk_dict. unfold spec_lookup. apply find_ext_in.
+  intros Hs Hq Hc. rewrite dget_mk_dict. unfold spec_lookup. apply find_ext_in.
   intros e He. apply in_rev in He.
-  rewrite (store_ops_clean _ _ Hs (clean_fs_In _ _ Hc He)), (key_ops_stable _ _ Hq Hn). reflexivity.
+  rewrite (store_ops_clean _ _ Hs (clean_fs_In _ _ Hc He)), (key_ops_sem _ _ Hq). reflexivity.
 Qed.
 
-(** Every backend whose key functions have a recognised form implements the specification map, for every query
-    spelling that normpath leaves alone. *)
-Theorem lookup_spec b fs q :
-  store_ops_ok (b_store b) = true -> key_ops_ok (b_get b) = true -> clean_fs fs = true -> normpath q = q ->
-  lookup b fs q = spec_lookup fs q.
+(** A query that the normalisation leaves alone (no redundant separators or dot segments, with either slash). *)
+Definition stable (q : str) : Prop := normpath q = q /\ normpath (slash q) = slash q.
+Lemma prenorm_stable k fs q : stable q -> spec_lookup fs (prenorm k q) = spec_lookup fs q.
+Proof.
+  intros [H1 H2]. destruct k; cbn [prenorm]; rewrite ?H1, ?H2; try reflexivity.
+  unfold spec_lookup. rewrite nkey_slash. reflexivity.
+Qed.
+
+(** Every backend whose key functions have a recognised form implements the specification map: for *every* query,
+    the file served is the specification's file for the query as the backend pre-normalises it ... *)
+Theorem lookup_norm b fs q :
+  store_ops_ok (b_store b) = true -> key_ops_ok (b_get b) = true -> clean_fs fs = true ->
+  lookup b fs q = spec_lookup fs (prenorm (norm_kind (b_get b)) q).
 Proof. intros. unfold lookup, the_dict. apply dict_lookup_spec; assumption. Qed.
-
-Theorem exists_spec b fs q :
-  store_ops_ok (b_store b) = true -> key_ops_ok (b_exists b) = true -> clean_fs fs = true -> normpath q = q ->
-  exists_ b fs q = match spec_lookup fs q with Some _ => true | None => false end.
+Theorem exists_norm b fs q :
+  store_ops_ok (b_store b) = true -> key_ops_ok (b_exists b) = true -> clean_fs fs = true ->
+  exists_ b fs q = match spec_lookup fs (prenorm (norm_kind (b_exists b)) q) with Some _ => true | None => false end.
 Proof. intros. unfold exists_, the_dict. rewrite dict_lookup_spec by assumption. reflexivity. Qed.
-
-Theorem open_spec b fs q :
-  store_ops_ok (b_store b) = true -> key_ops_ok (b_open b) = true -> clean_fs fs = true -> normpath q = q ->
-  open_ b fs q = spec_lookup fs q.
+Theorem open_norm b fs q :
+  store_ops_ok (b_store b) = true -> key_ops_ok (b_open b) = true -> clean_fs fs = true ->
+  open_ b fs q = spec_lookup fs (prenorm (norm_kind (b_open b)) q).
 Proof. intros. unfold open_, the_dict. apply dict_lookup_spec; assumption. Qed.
 
+(** ... which is the query itself when the normalisation leaves it alone. *)
+Theorem lookup_spec b fs q :
+  store_ops_ok (b_store b) = true -> key_ops_ok (b_get b) = true -> clean_fs fs = true -> stable q ->
+  lookup b fs q = spec_lookup fs q.
+Proof. intros. rewrite lookup_norm by assumption. apply prenorm_stable. assumption. Qed.
+
+Theorem exists_spec b fs q :
+  store_ops_ok (b_store b) = true -> key_ops_ok (b_exists b) = true -> clean_fs fs = true -> stable q ->
+  exists_ b fs q = match spec_lookup fs q with Some _ => true | None => false end.
+Proof. intros. rewrite exists_norm, prenorm_stable by assumption. reflexivity. Qed.
+
+Theorem open_spec b fs q :
+  store_ops_ok (b_store b) = true -> key_ops_ok (b_open b) = true -> clean_fs fs = true -> stable q ->
+  open_ b fs q = spec_lookup fs q.
+Proof. intros. rewrite open_norm by assumption. apply prenorm_stable. assumption. Qed.
+
+Lemma backend_keys_ok_inv b :
+  backend_keys_ok b = true ->
+  store_ops_ok (b_store b) = true /\ key_ops_ok (b_get b) = true /\ key_ops_ok (b_exists b) = true
+  /\ key_ops_ok (b_open b) = true.
+Proof.
+  unfold backend_keys_ok. intros H. apply andb_true_iff in H as [H H4]. apply andb_true_iff in H as [H H3].
+  apply andb_true_iff in H as [H1 H2]. repeat split; assumption.
+Qed.
+
 Theorem lookup_agree b1 b2 fs q :
-  backend_keys_ok b1 = true -> backend_keys_ok b2 = true -> clean_fs fs = true -> normpath q = q ->
+  backend_keys_ok b1 = true -> backend_keys_ok b2 = true -> clean_fs fs = true -> stable q ->
   lookup b1 fs q = lookup b2 fs q
   /\ exists_ b1 fs q = exists_ b2 fs q
   /\ open_ b1 fs q = open_ b2 fs q
   /\ open_ b1 fs q = lookup b1 fs q
   /\ lookup b1 fs q = spec_lookup fs q.
 Proof.
-  unfold backend_keys_ok. intros H1 H2 Hc Hn.
-  repeat (apply andb_true_iff in H1 as [H1 ?]). repeat (apply andb_true_iff in H2 as [H2 ?]).
+  intros H1 H2 Hc Hn.
+  apply backend_keys_ok_inv in H1 as [? [? [? ?]]]. apply backend_keys_ok_inv in H2 as [? [? [? ?]]].
   rewrite !lookup_spec, !exists_spec, !open_spec by assumption. repeat split; reflexivity.
+Qed.
+
+(** When all query functions normalise the path after converting the slashes (today's source), the backends agree on
+    every query string whatsoever: all of them serve the specification's file for [normpath (slash q)]. *)
+Theorem lookup_agree_all b1 b2 fs q :
+  backend_keys_norm b1 = true -> backend_keys_norm b2 = true -> clean_fs fs = true ->
+  lookup b1 fs q = lookup b2 fs q
+  /\ exists_ b1 fs q = exists_ b2 fs q
+  /\ open_ b1 fs q = open_ b2 fs q
+  /\ open_ b1 fs q = lookup b1 fs q
+  /\ lookup b1 fs q = spec_lookup fs (normpath (slash q))
+  /\ exists_ b1 fs q = match spec_lookup fs (normpath (slash q)) with Some _ => true | None => false end.
+Proof.
+  unfold backend_keys_norm, is_slashnorm. intros H1 H2 Hc.
+  do 3 (apply andb_true_iff in H1 as [H1 ?]). do 3 (apply andb_true_iff in H2 as [H2 ?]).
+  apply backend_keys_ok_inv in H1 as [? [? [? ?]]]. apply backend_keys_ok_inv in H2 as [? [? [? ?]]].
+  rewrite !lookup_norm, !exists_norm, !open_norm by assumption.
+  repeat match goal with H : match ?k with _ => _ end = true |- _ => destruct k; try discriminate; clear H end.
+  repeat split; reflexivity.
 Qed.
 
 (** The specification ignores case and slash kind of the query. *)
@@ -428,21 +496,37 @@ Qed.
 
 Definition add_slash (s : str) : str := match s with [] => [] | _ :: _ => s ++ [SL] end.
 
+Lemma has_rstrip_squash l : has_rstrip (squash l) = has_rstrip l.
+Proof.
+  induction l as [|o r IH]; [reflexivity|]. cbn [squash]. destruct r as [|o' r']; [reflexivity|].
+  destruct (is_sf o && sop_eqb o o') eqn:E.
+  - rewrite IH. apply andb_true_iff in E as [E _]. destruct o; try discriminate; reflexivity.
+  - unfold has_rstrip in *. cbn [existsb]. cbn [existsb] in IH. rewrite IH. reflexivity.
+Qed.
+
+Lemma has_rstrip_after_norm l : has_rstrip (after_norm l) = has_rstrip l.
+Proof.
+  rewrite <- (has_rstrip_squash l). unfold after_norm. destruct (squash l) as [|[] [|[] r]]; reflexivity.
+Qed.
+
+Lemma has_rstrip_sf a t : forallb is_sf a = true -> has_rstrip (a ++ t) = has_rstrip t.
+Proof.
+  unfold has_rstrip. intros H. induction a as [|o a IH]; [reflexivity|].
+  cbn [forallb] in H. apply andb_true_iff in H as [Ho Ha]. cbn [app existsb]. rewrite (IH Ha).
+  destruct o; try discriminate; reflexivity.
+Qed.
+
 Lemma folder_ops_sem b folder :
   folder_ops_ok (b_wfolder b) = true ->
   apply_ops (b_wfolder b) folder = add_slash (folder_key b folder).
 Proof.
-  unfold folder_key. generalize (b_wfolder b). intros l H.
-  assert (G : forall r with_dot s, (let (a, t) := split_sf r in sf_both a && tail_is t with_dot) = true ->
-     apply_ops r s = add_slash (rstrip_slash (if with_dot then (if eqb_str (nkey s) S_DOT then [] else nkey s) else nkey s))).
-  { intros r wd s Hr. destruct (split_sf r) as [a t] eqn:E. apply split_sf_spec in E as [-> _].
-    apply andb_true_iff in Hr as [Ha Ht]. rewrite apply_ops_app, (apply_sf_both a s Ha).
-    destruct wd.
-    - repeat (destruct t as [|[] t]; try discriminate). reflexivity.
-    - repeat (destruct t as [|[] t]; try discriminate). reflexivity. }
-  destruct l as [|o r]; [discriminate|].
-  destruct o; cbn [folder_ops_ok uses_norm] in *; try (apply (G _ false); exact H).
-  change (apply_ops (ONorm :: r) folder) with (apply_ops r (normpath folder)). apply (G _ true). exact H.
+  unfold folder_key, folder_ops_ok. generalize (b_wfolder b). intros l H.
+  rewrite (apply_ops_norm l folder), <- (has_rstrip_after_norm l).
+  destruct (split_sf (after_norm l)) as [a t] eqn:E. apply split_sf_spec in E as [E Hsf]. rewrite E.
+  apply andb_true_iff in H as [Ha Ht]. rewrite apply_ops_app, (apply_sf_both a _ Ha), (has_rstrip_sf a t Hsf).
+  destruct (uses_norm l).
+  - repeat (destruct t as [|[] t]; try discriminate); reflexivity.
+  - repeat (destruct t as [|[] t]; try discriminate); reflexivity.
 Qed.
 
 Lemma add_slash_prefix G k : is_prefix (add_slash G) k = true <-> path_prefix G k.
@@ -454,12 +538,20 @@ Proof.
     + intros [H|[r ->]]; [discriminate|]. exists r. rewrite <- app_assoc. reflexivity.
 Qed.
 
+Lemma walk_ok_src b fs folder : walk_ok b = true -> walk_src b fs folder = the_dict b fs.
+Proof.
+  unfold walk_ok, walk_over_dict, walk_src. intros H. apply andb_true_iff in H as [_ H].
+  destruct (b_wsrc b); [reflexivity|discriminate].
+Qed.
+Lemma walk_ok_folder b : walk_ok b = true -> folder_ops_ok (b_wfolder b) = true.
+Proof. unfold walk_ok. intros H. repeat (apply andb_true_iff in H as [H ?]). assumption. Qed.
+
 Lemma walk_subj b fs k e :
   walk_ok b = true -> clean_fs fs = true -> In (k, e) (the_dict b fs) ->
   k = nkey (fst e) /\ subj_of b (k, e) = nkey (fst e) /\ In e fs.
 Proof.
   unfold walk_ok, walk_subject_normalised. intros H Hc Hin.
-  apply andb_true_iff in H as [H Hsu]. apply andb_true_iff in H as [Hst Hfo].
+  apply andb_true_iff in H as [H _]. apply andb_true_iff in H as [H Hsu]. apply andb_true_iff in H as [Hst Hfo].
   destruct (mk_dict_inv _ _ _ _ Hin) as [Hk He].
   rewrite (store_ops_clean _ _ Hst (clean_fs_In _ _ Hc He)) in Hk. subst k.
   split; [reflexivity|]. split; [|exact He].
@@ -471,9 +563,8 @@ Theorem walk_exact b fs folder e :
   walk_ok b = true -> clean_fs fs = true ->
   (In e (walk b fs folder) <-> In e (entries b fs) /\ path_prefix (folder_key b folder) (nkey (fst e))).
 Proof.
-  intros Hw Hc. unfold walk, entries. rewrite !in_map_iff.
-  assert (Hfo : folder_ops_ok (b_wfolder b) = true).
-  { unfold walk_ok in Hw. repeat (apply andb_true_iff in Hw as [Hw ?]). assumption. }
+  intros Hw Hc. unfold walk, entries. rewrite (walk_ok_src b fs folder Hw), !in_map_iff.
+  pose proof (walk_ok_folder b Hw) as Hfo.
   split.
   - intros [[k e'] [He Hin]]. cbn [snd] in He. subst e'. apply filter_In in Hin as [Hin Hp].
     destruct (walk_subj b fs k e Hw Hc Hin) as [_ [Hs _]].
@@ -506,7 +597,7 @@ Proof.
 Qed.
 
 Lemma folder_key_empty b : folder_key b [] = [].
-Proof. unfold folder_key. destruct (uses_norm (b_wfolder b)); reflexivity. Qed.
+Proof. unfold folder_key, uses_norm. destruct (norm_kind (b_wfolder b)), (has_rstrip (b_wfolder b)); reflexivity. Qed.
 
 Lemma filter_all {A} (p : A -> bool) l : (forall x, In x l -> p x = true) -> filter p l = l.
 Proof.
@@ -517,9 +608,8 @@ Qed.
 (** The empty folder means all files. *)
 Theorem walk_empty_all b fs : walk_ok b = true -> walk b fs [] = entries b fs.
 Proof.
-  intros Hw. unfold walk, entries. f_equal. apply filter_all. intros kv _.
-  assert (Hfo : folder_ops_ok (b_wfolder b) = true).
-  { unfold walk_ok in Hw. repeat (apply andb_true_iff in Hw as [Hw ?]). assumption. }
+  intros Hw. unfold walk, entries. rewrite (walk_ok_src b fs [] Hw). f_equal. apply filter_all. intros kv _.
+  pose proof (walk_ok_folder b Hw) as Hfo.
   rewrite (folder_ops_sem b [] Hfo), folder_key_empty. reflexivity.
 Qed.
 
@@ -528,10 +618,10 @@ Theorem walk_lookup_closed b fs folder e :
   walk_ok b = true -> key_ops_ok (b_get b) = true -> clean_fs fs = true ->
   In e (walk b fs folder) -> lookup b fs (fst e) = Some e.
 Proof.
-  intros Hw Hg Hc Hin. unfold walk in Hin. apply in_map_iff in Hin as [[k e'] [He Hin]]. cbn [snd] in He. subst e'.
+  intros Hw Hg Hc Hin. unfold walk in Hin. rewrite (walk_ok_src b fs folder Hw) in Hin. apply in_map_iff in Hin as [[k e'] [He Hin]]. cbn [snd] in He. subst e'.
   apply filter_In in Hin as [Hin _].
   destruct (walk_subj b fs k e Hw Hc Hin) as [Hk [_ He]]. subst k.
-  unfold lookup. rewrite (key_ops_stable _ _ Hg (clean_name_normpath _ (clean_fs_In _ _ Hc He))).
+  unfold lookup. rewrite (key_ops_clean _ _ Hg (clean_fs_In _ _ Hc He)).
   apply In_dget; [apply mk_dict_nodup|exact Hin].
 Qed.
 
@@ -539,7 +629,7 @@ Qed.
 Theorem walk_nodup b fs folder :
   walk_ok b = true -> clean_fs fs = true -> NoDup (map (fun e => nkey (fst e)) (walk b fs folder)).
 Proof.
-  intros Hw Hc. unfold walk. rewrite map_map.
+  intros Hw Hc. unfold walk. rewrite (walk_ok_src b fs folder Hw), map_map.
   assert (H : forall d, (forall kv, In kv d -> In kv (the_dict b fs)) -> NoDup (map fst d) ->
               NoDup (map (fun kv : str * file => nkey (fst (snd kv))) d)).
   { intros d Hsub Hnd. rewrite (map_ext_in _ fst); [exact Hnd|].
@@ -642,7 +732,10 @@ Theorem chain_member_lookup b fs p q :
 Proof.
   intros Hk Hc Hp Hq Hn. cbn [chain_get member_of m_lookup m_prefix].
   rewrite (chain_prefix_relative p q Hp Hq).
-  unfold backend_keys_ok in Hk. repeat (apply andb_true_iff in Hk as [Hk ?]).
+  apply backend_keys_ok_inv in Hk as [? [? [? ?]]].
+  assert (Hst : stable (slash p ++ SL :: slash q)).
+  { assert (E : slash p ++ SL :: slash q = slash (p ++ SL :: q)) by (unfold slash; rewrite map_app; reflexivity).
+    split; [exact Hn|]. rewrite E, slash_idem, <- E. exact Hn. }
   rewrite lookup_spec by assumption.
   destruct (spec_lookup fs (slash p ++ SL :: slash q)) eqn:E;
     rewrite <- E; apply spec_lookup_variant;
